@@ -755,3 +755,12 @@ Proof.
     rewrite E in X. discriminate X.
   - exfalso. exact (stage_list_nopanic _ E).
 Qed.
+
+(* the premises of the omit theorems are met by ordinary lines *)
+Lemma ex_omit_facts :
+  script_ops [bs "dir /opt/x mod=0755"; bs "# c"; bs "omit ""/usr/bin/ba*"""; bs "tbd /usr/bin/bar absent=skip"]
+  = ([OAdd (MkLI TDir (bs "/opt/x") false false false false)] ++ OOmit (bs "/usr/bin/ba*") true
+    :: [OAdd (MkLI TTbd (bs "/usr/bin/bar") false false false true)])%list
+  /\ omit_hit (bs "/usr/bin/ba*") true (bs "/usr/bin/bar") = true
+  /\ omit_hit (bs "/usr/bin/ba*") true (bs "/usr/bin/sub/bar") = false.
+Proof. vm_compute. auto. Qed.
